@@ -446,3 +446,64 @@ def _subvalues(v, out=None):
                 for y in (x if isinstance(x, list) else [x]):
                     _subvalues(y, out)
     return out
+
+
+def key_distribution_only_question(ctx, cv):
+    """AttributesConverter.protobytes_is_key_distribution_only(bytes), executed on protobuf stand-ins: payloads are built
+    by interpreting small construction programs against the Message description, serialised and handed to the method.
+    The answer must be True exactly for a payload whose only field is the sender-key distribution - the routing model of
+    C03 / C06 / C07 (sa/routing.py) answers the same question from the field set and relies on the code agreeing.
+    -> (list of problems, number of payloads) or None when the method / description is missing"""
+    repo = ctx.repo
+    cls = cv.cls
+    if repo.find_method(cls, "protobytes_is_key_distribution_only")[1] is None:
+        return None
+    mtype = next((t for t in cv.descs if t.split(".")[-1] == "Message" and "sender_key_distribution_message" in cv.descs[t]), None)
+    if mtype is None:
+        return None
+    fields = cv.descs[mtype]
+    SK = "sender_key_distribution_message"
+    msg_fields = [f for f, d in fields.items() if d["msg"] and f != SK and d["label"] != 3]
+    scalar = [f for f, d in fields.items() if not d["msg"] and d["label"] != 3]
+    modelled = {k for k in set(cv.fwd) | set(cv.rev)}
+    unmodelled = [f for f in msg_fields if f.replace("_message", "") not in modelled and f not in modelled]
+    payloads = [("only the sender-key distribution", [SK], True), ("nothing at all", [], False)]
+    if scalar:
+        payloads += [("a text", scalar[:1], False), ("the sender-key distribution and a text", [SK] + scalar[:1], False)]
+    for f in msg_fields[:2]:
+        payloads += [("only %s" % f, [f], False), ("the sender-key distribution and %s" % f, [SK, f], False)]
+    for f in unmodelled[-1:]:
+        payloads.append(("the sender-key distribution and %s (a kind the library does not present)" % f, [SK, f], False))
+    problems = []
+    for label, present, want in payloads:
+        lines = ["m = Message()"]
+        for f in present:
+            lines.append("m.%s.SetInParent()" % f if fields[f]["msg"] else "m.%s = 'x'" % f)
+        lines.append("data = m.SerializeToString()")
+        prog = ast.parse("\n".join(lines)).body
+
+        def run(cell, domains):
+            pm = ProtoModel(cv.descs)
+            it = Interp(repo, cell, domains, mode="route", hooks=pm.hooks())
+            env = {"@module": cls.module, "@owner": None}
+            conv = it.construct(cls, [], {}, env, 0, None)
+            it.block(prog, env, 0)
+            try:
+                r = it.method_call(conv, "protobytes_is_key_distribution_only", [env["data"]], {}, env, 0, None)
+                r = it.force(r)
+                out = ("ret", r[1] if r[0] == "c" else None, list(pm.unmodelled))
+            except _Raise as x:
+                out = ("raise", x.text, list(pm.unmodelled))
+            return out, it
+        try:
+            cells = enumerate_cells(run, {}, max_cells=16)
+        except (Budget, NeedAtom, DomainGrew) as x:
+            return ["not decided for a payload carrying %s: %s" % (label, x)], len(payloads)
+        for _c, (kind, val, unm) in cells:
+            if unm:
+                return None
+            if kind == "raise":
+                problems.append("raises %s for a payload carrying %s" % (val[:50], label))
+            elif not isinstance(val, bool) or val != want:
+                problems.append("answers %r for a payload carrying %s" % (val, label))
+    return sorted(set(problems)), len(payloads)
